@@ -747,8 +747,39 @@ def run_check(ctx, G, name, args, nontrivial=True):
     return True
 
 
+def safe_group(ctx, spec):
+    """make_group, but a constructor that raises on valid parameters is a finding, not a harness error
+    (e.g. the built-in assertion generator^order == identity); time-outs are re-raised."""
+    try:
+        return make_group(spec)
+    except _Timeout:
+        raise
+    except Exception as exc:  # noqa: BLE001
+        ctx.violation(f'C27 constructing {spec} raised {type(exc).__name__}: {exc}',
+                      {'kind': 'c27', 'group': spec, 'check': 'order', 'args': [],
+                       'expected': 'group type is constructed', 'observed': f'{type(exc).__name__}: {exc}'})
+        return None
+
+
 def replay(ctx, data):
-    G = make_group(data['group'])
+    if data.get('kind') == 'c27-ctor':
+        try:
+            fg.SymmetricGroup(data['n'])(tuple(data['value']))
+            got = True
+        except ValueError:
+            got = False
+        return got == data['expected'], f"Sym({data['n']}) constructor accepts {data['value']}: {got}"
+    if data.get('kind') == 'c27-exception':
+        big = common.Ctx(ctx.property_id, 'quick', data.get('seed', 0))
+        try:
+            globals()[data['phase']](big)
+        except Exception as exc:  # noqa: BLE001
+            return False, f"{data['phase']} raised {type(exc).__name__}: {exc}"
+        return not big.violations, (big.violations[0][0] if big.violations else f"{data['phase']} passes")
+    try:
+        G = make_group(data['group'])
+    except Exception as exc:  # noqa: BLE001
+        return False, f"constructing {data['group']} raised {type(exc).__name__}: {exc}"
     try:
         res = CHECKS[data['check']](G, data['args'])
     except Exception as exc:  # noqa: BLE001
@@ -908,7 +939,9 @@ def explore_mod(ctx):
     for sg in sgs:
         specs.append({'family': 'sg', 'p': sg.field.modulus, 'q': sg.order, 'g': int(sg.generator.value.value)})
     for spec in specs:
-        G = make_group(spec)
+        G = safe_group(ctx, spec)
+        if G is None:
+            continue
         small = G.p < 300
         if small:  # exhaustive
             if G.kind == 'qr':
@@ -982,7 +1015,9 @@ def explore_ec(ctx):
     rng = ctx.subrng('ec')
     specs, tiny = _ec_specs(ctx, rng)
     for spec in specs:
-        G = make_group(spec)
+        G = safe_group(ctx, spec)
+        if G is None:
+            continue
         slow = G.ext or G.p.bit_length() > 300
         nt = ctx.scale(2 if slow else 4, 12 if slow else 30)
         for tr in _triples(G, rng, nt):
@@ -1054,9 +1089,11 @@ def explore_hc(ctx):
                   {'family': 'hc', 'p': 18446744073709551427, 'genus': 2, 'coords': 'extended'}]
     for spec in specs:
         try:
-            G = make_group(spec)
+            G = safe_group(ctx, spec)
         except _Timeout:
             ctx.note(f'HyperellipticCurve({spec}) did not return within 20 s (construction, not a C27 clause)')
+            continue
+        if G is None:
             continue
         tiny = G.p <= 7 and G.genus <= 2 and not G.cl
         if tiny:  # the whole Jacobian, enumerated independently
@@ -1108,7 +1145,9 @@ def explore_cl(ctx):
     for l in [8, 12, 16, 20, 24, 32, 64, 128] + ([256, 512, 1024] if ctx.thorough else [256]):
         Ds.append(fg.ClassGroup(l=l).discriminant)
     for D in Ds:
-        G = make_group({'family': 'cl', 'D': D})
+        G = safe_group(ctx, {'family': 'cl', 'D': D})
+        if G is None:
+            continue
         if -D < 70000:
             run_check(ctx, G, 'class_number', [])
         if -D < 5000:  # all reduced forms, enumerated independently
@@ -1337,14 +1376,27 @@ def correspondence(ctx):
 
 
 # =================================================================================================
+def _guard(ctx, phase):
+    """An exception escaping a phase is caused by the code under test (the unchanged tree raises none):
+    report it as a violation instead of an infrastructure error."""
+    try:
+        return globals()[phase](ctx)
+    except (common.InfraError, _Timeout):
+        raise
+    except Exception as exc:  # noqa: BLE001
+        import traceback
+        ctx.violation(f'C27 {phase}: {type(exc).__name__}: {exc}',
+                      {'kind': 'c27-exception', 'phase': phase, 'seed': ctx.seed,
+                       'traceback': traceback.format_exc()[-1500:]})
+        return None
+
+
 def run(ctx):
-    finish = correspondence(ctx)  # the Lean driver evaluates the model while the oracle part runs
-    explore_sym(ctx)
-    explore_mod(ctx)
-    explore_ec(ctx)
-    explore_hc(ctx)
-    explore_cl(ctx)
-    finish()
+    finish = _guard(ctx, 'correspondence')  # the Lean driver evaluates the model while the oracle part runs
+    for phase in ('explore_sym', 'explore_mod', 'explore_ec', 'explore_hc', 'explore_cl'):
+        _guard(ctx, phase)
+    if finish is not None:
+        finish()
 
 
 def search(ctx):
